@@ -17,12 +17,16 @@ THEOREMS = ["C14_asserts_never_fail", "C14_cond_lock_mutex", "C14_wait_returns_h
             "C14_wait_false_only_after_timeout", "C14_notify_all_wakes_everyone", "C14_notify_all_no_waiter_left_asleep",
             "C14_notify_at_most_one", "C14_tokens_accounted", "C14_wsem_zero_when_quiet", "C14_sleeping_minus_woken",
             "C14_notify_wakes_one_refuted", "C14_constructor_parameters", "C14_bounded_never_above_max",
-            "C14_over_release_refused", "C14_semaphore_conservation", "C14_rlock_reentrant_for_owner_only"]
+            "C14_over_release_refused", "C14_semaphore_conservation", "C14_rlock_reentrant_for_owner_only",
+            "C14_event_wait_returns_true_iff_set", "C14_event_flag_is_binary_and_no_sleeper_while_set", "C14_event_set_wakes_everyone",
+            "C14_event_is_set_and_clear", "C14_event_wait_sleeps_only_on_a_clear_event", "C14_event_untimed_waiter_needs_a_set",
+            "C14_event_nothing_gets_stuck"]
 COND = os.path.join(vlib.VERIF, "corr", "sim", "cond_sim.py")
 EXTRACT = os.path.join(vlib.COQ, "extract")
 ASSUME = simcommon.SIM_ASSUME + [
     "Condition's lock is modelled as a plain mutex (recursion count 1); RLock-based conditions are explored by the monitors only",
-    "Event is decided by the monitors (its flag is only changed under the condition's lock)",
+    "Event (coq/Model/Event.v): CondWait / NotifyAll mean what the Condition theorems say (wait returns holding the lock; notify_all "
+    "wakes every registered waiter); a body runs atomically because it is one `with self._cond:` block (checked by the translator)",
 ]
 
 REAL = r'''
@@ -76,6 +80,154 @@ if __name__ == "__main__":
 '''
 
 
+EVENT_DIFF = r'''
+import json, random, sys, threading, time
+from loky.backend import get_context
+seed, nseq = int(sys.argv[1]), int(sys.argv[2])
+ctx = get_context("loky")
+out = []
+lost = [0]          # histories in which a waiter did not come back: after the first one waits are short, after three we stop
+for k in range(nseq):
+    rng = random.Random(f"event-{seed}-{k}")
+    ev = ctx.Event()
+    log, sleepers, nxt = [], {}, 1
+    if lost[0] >= 3:
+        break
+    def asleep():
+        return ev._cond._sleeping_count._semlock._get_value()
+    def collect(expect_all):
+        done = []
+        t0 = time.time()
+        while sleepers and time.time() - t0 < (10 if lost[0] == 0 else 0.5):
+            for tid in sorted(sleepers):
+                th, box = sleepers[tid]
+                if not th.is_alive():
+                    done.append([tid, box[0]]); del sleepers[tid]
+            if not expect_all:
+                break
+            time.sleep(0.001)
+        return done
+    ops = rng.randint(3, 12)
+    for _ in range(ops):
+        op = rng.choice(["is_set", "set", "clear", "wait0", "spawn", "spawn", "is_set", "set"])
+        if op == "is_set":
+            log.append(["is_set", ev.is_set()])
+        elif op == "clear":
+            ev.clear(); log.append(["clear"])
+        elif op == "wait0":
+            log.append(["wait0", ev.wait(0)])
+        elif op == "set":
+            n = len(sleepers)
+            ev.set()
+            woke = collect(True)
+            log.append(["set", woke, n - len(woke)])          # threads asleep before the set that did not come back within 10 s
+            if n - len(woke):
+                lost[0] += 1
+                sleepers.clear()
+                break
+        elif op == "spawn" and len(sleepers) < 3:
+            tid, nxt = nxt, nxt + 1
+            box = [None]
+            before = asleep()
+            th = threading.Thread(target=lambda b=box: b.__setitem__(0, ev.wait()), daemon=True)
+            th.start()
+            t0 = time.time()
+            while th.is_alive() and asleep() != before + 1 and time.time() - t0 < 10:
+                time.sleep(0.0005)
+            if th.is_alive():
+                sleepers[tid] = (th, box); log.append(["spawn", tid, "sleeps"])
+            else:
+                log.append(["spawn", tid, box[0]])
+    n = len(sleepers)
+    ev.set()
+    woke = collect(True)
+    log.append(["set", woke, n - len(woke)])
+    log.append(["is_set", ev.is_set()])
+    out.append(log)
+print(json.dumps({"logs": out}))
+'''
+
+
+def event_differential(ctx, nseq):
+    """random histories of set / clear / is_set / wait(0) / wait() in threads on the real loky Event; the same histories through
+    coq/Model/Event.v (vm_compute); outputs compared event by event"""
+    res = runner.run_script(EVENT_DIFF, vlib.REPO, timeout=600, args=(ctx.seed, nseq))
+    got = runner.last_json(res)
+    out = {"ok": True, "histories": 0, "events": 0, "failed": [], "ops": {}}
+    if got is None:
+        out.update(ok=False, error="real Event scenario did not complete: " + res["stderr"][-300:])
+        return out
+    B = {True: "1", False: "0", None: "2"}
+    cases, expects = [], []
+    for log in got["logs"]:
+        evs, exp = [], []
+        # the property itself on this (sequential) history, with no model in between: the event is a boolean
+        flag, why = False, None
+        for e in log:
+            if e[0] == "set":
+                flag = True
+                if any(r is not True for _, r in e[1]):
+                    why = f"a waiter woken by set() returned {[r for _, r in e[1]]} although the event was set when it returned"
+            elif e[0] == "clear":
+                flag = False
+            elif e[0] in ("is_set", "wait0") and e[1] is not flag:
+                why = f"{e[0]} returned {e[1]} although the event was {'set' if flag else 'clear'}"
+            elif e[0] == "spawn" and ((e[2] == "sleeps") == flag or (e[2] != "sleeps" and e[2] is not True)):
+                why = f"wait() on a {'set' if flag else 'clear'} event: {e[2]}"
+            if why:
+                out["failed"].append({"history": log, "why": why})
+                break
+        for e in log:
+            out["ops"][e[0]] = out["ops"].get(e[0], 0) + 1
+            if e[0] == "is_set":
+                evs.append("Call 0 MIsSet"); exp.append([1, 0, 0, int(B[e[1]])])
+            elif e[0] == "clear":
+                evs.append("Call 0 MClear"); exp.append([1, 0, 2, 2])
+            elif e[0] == "wait0":
+                evs.append("Call 0 (MWait true)")
+                if e[1]:
+                    exp.append([1, 0, 3, 1])
+                else:
+                    exp.append([2, 0]); evs.append("Resume 0"); exp.append([1, 0, 3, 0])
+            elif e[0] == "set":
+                evs.append("Call 0 MSet"); exp.append([1, 0, 1, 2])
+                for tid, r in e[1]:
+                    evs.append(f"Resume {tid}"); exp.append([1, tid, 4, int(B[r])])
+                if e[2]:
+                    out["failed"].append({"history": log, "why": f"{e[2]} untimed waiter(s) asleep before set() did not return within 10 s"})
+            elif e[0] == "spawn":
+                evs.append(f"Call {e[1]} (MWait false)")
+                exp.append([2, e[1]] if e[2] == "sleeps" else [1, e[1], 4, int(B[e[2]])])
+        cases.append("[" + "; ".join(evs) + "]"); expects.append(exp)
+        out["events"] += len(evs)
+    out["histories"] = len(cases)
+    txt = ("From Coq Require Import List ZArith Bool.\nFrom LokyV Require Import Lib.EventLib Gen.Event Model.Event.\nImport ListNotations.\n"
+           "Definition mc (m : meth) : nat := match m with MIsSet => 0 | MSet => 1 | MClear => 2 | MWait true => 3 | MWait false => 4 end.\n"
+           "Definition rc (r : option bool) : nat := match r with Some true => 1 | Some false => 0 | None => 2 end.\n"
+           "Definition show (o : out) : list nat := match o with ORet t m r => [1; t; mc m; rc r] | OSleep t => [2; t] | ONone => [3] | OStuck => [4] end.\n"
+           "Eval vm_compute in map (fun es => map show (snd (run es est0))) [\n  " + ";\n  ".join(cases) + "].\n")
+    ok, resx = vlib.coq_eval(f"c14_event_{os.getpid()}", txt)
+    if not ok:
+        out.update(ok=False, error=resx[-400:])
+        return out
+    import re
+    flat = resx[resx.index("="):resx.rindex(":")].replace("\n", " ")
+    # parse nested list of lists of lists of nat
+    flat = re.sub(r"%nat", "", flat)[1:].strip()
+    model = json.loads(flat.replace(";", ","))
+    if len(model) != len(expects):
+        out.update(ok=False, error=f"{len(model)} results for {len(expects)} histories")
+        return out
+    for log, m, x in zip(got["logs"], model, expects):
+        if m != x:
+            i = next((j for j, (a, b) in enumerate(zip(m, x)) if a != b), min(len(m), len(x)))
+            out["failed"].append({"history": log, "first_difference_at_event": i, "model_says": m[i] if i < len(m) else None,
+                                  "implementation_did": x[i] if i < len(x) else None,
+                                  "encoding": "[1, thread, method(0 is_set,1 set,2 clear,3 wait(timeout),4 wait()), result(1 True,0 False,2 None)] | [2, thread] sleeps"})
+    out["sample"] = got["logs"][len(got["logs"]) // 2]
+    return out
+
+
 def build():
     with vlib.BuildLock():
         r = subprocess.run(["timeout", "300", "coqc", "-R", "..", "LokyV", "Extract.v"], cwd=EXTRACT,
@@ -88,7 +240,7 @@ def build():
 
 
 def run(ctx):
-    pr = vlib.prove(ctx, PROP_FILE, ["Sync"])
+    pr = vlib.prove(ctx, PROP_FILE, ["Sync", "Event"])
     n = 1500 if ctx.tier == "quick" else 40000
     chunk = 150 if ctx.tier == "quick" else 2000
     d = tempfile.mkdtemp(prefix="lokyv_c14_")
@@ -170,6 +322,16 @@ def run(ctx):
         rp = vlib.write_replay(ctx, "real", {"kind": "primitives shared with loky child processes misbehave", "got": got,
                                              "stderr": res["stderr"][-1200:], "timed_out": res["timed_out"]})
         ctx.violations.append(("cross-process lock/semaphore/event/condition scenario failed", rp, False))
+    ed = event_differential(ctx, 150 if ctx.tier == "quick" else 2500)
+    if ed["failed"]:
+        rp = vlib.write_replay(ctx, "event", {"kind": "the real Event and coq/Model/Event.v disagree on a history", "failed": ed["failed"][:5]})
+        ctx.violations.append((f"Event: model and implementation differ on {len(ed['failed'])} of {ed['histories']} histories: "
+                               + str(ed["failed"][0].get("why") or ("event %s: model %s, implementation %s" % (
+                                   ed["failed"][0]["first_difference_at_event"], ed["failed"][0]["model_says"], ed["failed"][0]["implementation_did"])))[:160],
+                               rp, False))
+    elif not ed["ok"] and pr["ok"]:
+        rp = vlib.write_replay(ctx, "event", {"kind": "Event differential did not run", "detail": ed.get("error")})
+        ctx.violations.append(("Event model/implementation correspondence did not run: " + str(ed.get("error"))[:120], rp, True))
     for kid, (kf, cnt) in sorted(known.items()):
         ctx.known.append(f"{kf['id']} {kf['title']} ({cnt} of {total} schedules)")
     for i, (sig, (r, cnt)) in enumerate(sorted(new.items(), key=lambda kv: -kv[1][1])):
@@ -212,6 +374,8 @@ def run(ctx):
         "plan_kinds": kinds, "traces_validated_against_impl": traces, "trace_events": events,
         "traces_rejected": len(rejected), "known_findings_seen": {k: v[1] for k, v in known.items()},
         "real_process_scenario": got,
+        "event_differential": {k: ed.get(k) for k in ("ok", "histories", "events", "ops", "sample", "error")},
+        "generated_event_bodies": pr.get("gen", {}).get("Event", {}).get("manifest"),
         "samples": [sample] if sample else [{"note": "none"}],
     }
     return vlib.finish(ctx, ASSUME)
